@@ -940,6 +940,25 @@ pub fn directed() -> Vec<Request> {
             }
         }
     }
+    // every trait x every bound(..) form (per trait and common) on single-field and two-field
+    // generic items with and without a where clause of their own
+    {
+        let bounds = ["bound()", "bound(..)", "bound(T)", "bound(T: Clone)", "bound(T, T: Copy)", "bound(T: Copy, ..)", "bound(U)", "bound(T,)", "bound(Vec<T>)", "bound('a: 'a)"];
+        for tr in TRAITS {
+            for b in bounds {
+                for item in [
+                    "struct X<T>(T) where T: Copy;",
+                    "struct X<T>(T);",
+                    "struct X<'a, T, U>(&'a T, U) where U: Clone,;",
+                    "enum X<T> where T: Copy { A(T), #[default] B }",
+                ] {
+                    out.push(Request { mode: Mode::Attr, attr: format!("{tr}({b})"), item: item.into() });
+                    out.push(Request { mode: Mode::Attr, attr: format!("{tr}, {b}"), item: item.into() });
+                }
+                out.push(Request { mode: Mode::Derive, attr: String::new(), item: format!("#[derive_ex({tr}({b}), bound(T: Copy))] struct X<T>(#[derive_ex({tr}({b}))] T) where T: Copy;") });
+            }
+        }
+    }
     // normalise to the printed token form and drop what is not a valid request
     let mut res = Vec::new();
     let mut seen = std::collections::BTreeSet::new();
